@@ -144,6 +144,16 @@ func genPick(t *rapid.T) PickCase {
 	c.MaxDup = rapid.IntRange(1, 4).Draw(t, "maxdup")
 	c.Sequential = rapid.Bool().Draw(t, "seq")
 	c.NWeb = rapid.SampledFrom([]int{0, 0, 1, 2, 3}).Draw(t, "nweb")
+	if c.Sequential && c.NPeers >= 2 && rapid.Bool().Draw(t, "seqPrelude") {
+		// sequential mode with several busy peers and no web seed: the shape in which the order of requests after a
+		// failed hash check is observable (every peer has everything and is unchoking, everybody downloads, then the
+		// lowest piece in progress fails its hash check - twice)
+		c.NWeb = 0
+		for p := 0; p < c.NPeers; p++ {
+			c.Ops = append(c.Ops, POp{Op: "haveall", P: p}, POp{Op: "unchoke", P: p})
+		}
+		c.Ops = append(c.Ops, POp{Op: "pickall"}, POp{Op: "lowest-hashfail"}, POp{Op: "connect", P: 0}, POp{Op: "haveall", P: 0}, POp{Op: "unchoke", P: 0}, POp{Op: "pickall"}, POp{Op: "lowest-hashfail"})
+	}
 	n := rapid.IntRange(5, 60).Draw(t, "nops")
 	for i := 0; i < n; i++ {
 		c.Ops = append(c.Ops, POp{Op: rapid.SampledFrom(pickOps).Draw(t, "op"), P: rapid.IntRange(0, c.NPeers-1).Draw(t, "p"), I: rapid.IntRange(0, 1000).Draw(t, "i")})
